@@ -365,11 +365,17 @@ def rule_normaliser(ctx: Ctx) -> None:
                 ctx.check(not raised and strip_v(rv) == "threshold_list", "C15-normaliser", name, "nested", f"a well-formed nested list returns `{rv}`", fi=fi)
                 lp = [e for e in p.effects if e.kind == "loop"]
                 ctx.require(len(lp) == 1, f"{name}: row loop not found")
+                tv = U(lp[0].node.target)
                 for bp in lp[0].body:
-                    one = next((v for k, v in bp.facts.items() if S(k).startswith("eq:len(t") and S(k).endswith("==1")), None)
+                    one = next((v for k, v in bp.facts.items() if S(k).startswith(f"eq:len({tv}") and S(k).endswith("==1")), None)
                     ap = [S(a.args[0]) for a in bp.effects if a.kind == "call" and a.name == "append" for _ in [0]]
                     ap = [strip_v(x) for x in ap]
-                    ctx.check(ap == (["t*num_elements"] if one else ["t"]), "C15-normaliser", name, f"nested-row:{'singleton' if one else 'full'}", f"an inner list of length {'1' if one else 'n'} becomes {ap}", fi=fi)
+                    if one is None and ap == [f"{tv}*num_elementsiflen({tv})==1else{tv}"]:
+                        # both rows in one conditional expression
+                        ctx.ok("C15-normaliser", name, "nested-row:singleton")
+                        ctx.ok("C15-normaliser", name, "nested-row:full")
+                        continue
+                    ctx.check(ap == ([f"{tv}*num_elements"] if one else [tv]), "C15-normaliser", name, f"nested-row:{'singleton' if one else 'full'}", f"an inner list of length {'1' if one else 'n'} becomes {ap}", fi=fi)
             else:
                 if not raised and (notlist is None or badlen is None):
                     ctx.violate("C15-normaliser", name, "nested-unchecked", f"a nested list is accepted on [{p.cond_text()[:120]}] without checking that every entry is a list of length n or 1", fi=fi)
